@@ -218,7 +218,7 @@ func (e *Env) Judge(l *RunLog) ([]Finding, Stats) {
 			floor, floorWhy = floorCut, "the start-up that was interrupted inside its own recovery requests was resuming from"
 		}
 		switch {
-		case s.SP.RunId != e.RunID || R < 0:
+		case !e.knownRunID(s.SP.RunId) || R < 0:
 			add("resume|position-lost", "%s returned %+v (= full resynchronisation) although %d units are committed and resume state is stored", where, s.SP, nCommitted)
 			continue
 		case !isBoundary(R):
@@ -333,6 +333,18 @@ func (e *Env) Repeats(l *RunLog) bool {
 			if t.Txn > s.ReqDone && t.Complete() && before[t.Unit.Idx] > 0 {
 				return true
 			}
+		}
+	}
+	return false
+}
+
+func (e *Env) knownRunID(id string) bool {
+	if id == e.RunID {
+		return true
+	}
+	for _, a := range e.AltRunIDs {
+		if a == id {
+			return true
 		}
 	}
 	return false
